@@ -126,8 +126,6 @@ pub fn operator_fields() -> Vec<BI> {
     add(list(Ty::Int), bang("!listconcat", vec![E::List(vec![]), li()]));
     add(list(Ty::Int), bang("!listconcat", vec![li(), E::List(vec![])]));
     add(list(Ty::Int), bang("!listremove", vec![li(), E::List(vec![])]));
-    add(Ty::Int, bang("!size", vec![E::List(vec![])]));
-    add(Ty::Bit, bang("!empty", vec![E::List(vec![])]));
     add(Ty::Int, bang("!size", vec![li()]));
     add(Ty::Int, bang("!size", vec![s("abc")]));
     add(Ty::Int, bang("!size", vec![dg()]));
